@@ -1,6 +1,6 @@
 package redact
 
-// Replay/search harness for the byte-layer properties (C01, C03, C08, C09, C10, C13).
+// Shared helpers of the replay/bounded harnesses (injected next to the per-property file).
 // Injected with `go test -overlay` (never written into /repo). It drives the
 // real public API over small inputs built from the bytes that matter
 // (marker bytes, partial markers, line feeds, '?', ordinary bytes) and checks
@@ -175,27 +175,5 @@ func vRun(t *testing.T, prop string, check func(string) (bool, string)) {
 	}
 }
 
-func TestVerifReplayC01(t *testing.T) {
-	vRun(t, "C01", func(out string) (bool, string) {
-		if !vWellFormed(out) {
-			return false, "output is not well-formed: markers do not strictly alternate"
-		}
-		return true, ""
-	})
-}
-
-func TestVerifReplayC03(t *testing.T) {
-	vRun(t, "C03", func(out string) (bool, string) {
-		if !vLineSafe(out) {
-			return false, "a line feed lies inside an envelope"
-		}
-		for _, line := range strings.Split(out, "\n") {
-			if !vWellFormed(line) {
-				return false, "a line of the output is not well-formed on its own"
-			}
-		}
-		return true, ""
-	})
-}
-
 var _ = bytes.Equal
+var _ = strings.Split
